@@ -62,6 +62,12 @@ build_mcheck() {
   local mode=$1
   gen_overlay "$BUILD" || { echo "INTERNAL-ERROR: protobuf generation failed" >&2; return 1; }
   instr_overlay "$BUILD" "$mode" || { echo "INTERNAL-ERROR: instrumentation failed" >&2; return 1; }
-  ( cd "$VERIF/mc" && go build -overlay "$BUILD/overlay-$mode.json" -o "$BUILD/bin/mcheck-$mode" ./cmd/mcheck ) || {
+  local modflag=
+  if [ "$REPO" != /repo ]; then
+    # scratch evaluation against a copy of the repository: same module, other replace target
+    sed "s#=> /repo\$#=> $REPO#" "$VERIF/mc/go.mod" > "$BUILD/go.mod"; cp "$VERIF/mc/go.sum" "$BUILD/go.sum"
+    modflag="-modfile=$BUILD/go.mod"
+  fi
+  ( cd "$VERIF/mc" && go build $modflag -overlay "$BUILD/overlay-$mode.json" -o "$BUILD/bin/mcheck-$mode" ./cmd/mcheck ) || {
     echo "INTERNAL-ERROR: build failed" >&2; return 1; }
 }
